@@ -178,3 +178,65 @@ pub fn partner(n: u32, es: u32, a: u64, lat: &[u64], rng: &mut StdRng) -> u64 {
     };
     p & mask(n)
 }
+
+/// exact f64 value of a non-zero, non-NaR pattern of a format with n <= 33 (used to *choose*
+/// float inputs at rounding boundaries; every posit of these formats is exactly an f64)
+pub fn to_f64_exact(n: u32, es: u32, p: u64) -> f64 {
+    let (sign, scale, nf, f) = decode(n, es, p);
+    let m = 1.0 + (f as f64) / ((1u64 << nf) as f64);
+    let v = m * 2f64.powi(scale);
+    if sign {
+        -v
+    } else {
+        v
+    }
+}
+
+/// interesting integers of a given width
+pub fn ints(w: u32, rng: &mut StdRng, nrand: usize) -> Vec<u64> {
+    let m = mask(w);
+    let mut v: Vec<u64> = Vec::new();
+    for k in 0..w {
+        let b = 1u64 << k;
+        for d in [0i64, 1, -1, 2, -2, 3] {
+            v.push((b as i64).wrapping_add(d) as u64 & m);
+            v.push(((b as i64).wrapping_add(d) as u64).wrapping_neg() & m);
+        }
+        // odd multiples of half-units at the rounding position: (2j+1) * 2^(k-1) near 2^(k+p)
+        for p in [3u32, 4, 5, 12, 13, 20, 27, 28, 29, 30] {
+            if k + p < w && k >= 1 {
+                let hi = 1u64 << (k + p);
+                for j in [0u64, 1, 2, 3, (1 << p) - 1, (1 << p) - 2] {
+                    let x = hi | (j << k) | (1 << (k - 1));
+                    for d in [0i64, 1, -1] {
+                        v.push((x as i64).wrapping_add(d) as u64 & m);
+                    }
+                }
+            }
+        }
+    }
+    for d in 0..4u64 {
+        v.push(d);
+        v.push(m - d);
+        v.push((m >> 1).wrapping_sub(d) & m);
+        v.push(((m >> 1) + 1 + d) & m);
+    }
+    // thresholds hard-coded in the crate +- 2
+    for c in [2_147_483_135u64, 2_147_483_136, 4_294_966_271, 4_294_967_295, 9_222_809_086_901_354_495, 9_222_809_086_901_354_496,
+              0xFFFB_FFFF_FFFF_FBFF, 0x0008_0000_0000_0000, 0x7FFF_FFFF_FFFF_FFFF, 49_151, 50_331_648, 8_388_608, 16_777_216, 48, 49, 96, 97] {
+        for d in [-2i64, -1, 0, 1, 2] {
+            let x = (c as i64).wrapping_add(d) as u64;
+            v.push(x & m);
+            v.push(x.wrapping_neg() & m);
+        }
+    }
+    for _ in 0..nrand {
+        let bits = rng.gen_range(1..=w);
+        let x = rng.gen::<u64>() & mask(bits);
+        v.push(x & m);
+        v.push(x.wrapping_neg() & m);
+    }
+    v.sort();
+    v.dedup();
+    v
+}
